@@ -405,6 +405,31 @@ def run(chk):
         chk.violation(str(e), "platform annotation pass of the C17 harness failed", no_input=True, suffix="txt")
         return finish(chk)
     found, corr, thm = diffrun.campaign(chk, fam, cases, proof_ok, detail, signature_of, "C17", batch=40)
+    # "creation from text succeeds exactly for the numeric strings the platform accepts" — whatever the host's interfaces are:
+    # the text ops once more with the LIBRARY running in a private network namespace that has an IPv4 address besides
+    # loopback and no IPv6 address but ::1 (the configuration in which getaddrinfo's AI_ADDRCONFIG hides a family); the
+    # platform's answers are the ones annotated above, in the ordinary namespace.  Skipped where namespaces are not permitted.
+    if not found:
+        import shutil
+        import subprocess
+        probe = shutil.which("unshare") and shutil.which("ip") and subprocess.run(
+            ["unshare", "-n", "sh", "-c", "ip link set lo up && ip addr add 10.77.1.1/24 dev lo"], stdout=subprocess.DEVNULL, stderr=subprocess.DEVNULL).returncode == 0
+        if probe:
+            class NetnsFamily(diffrun.Family):
+                def run_c(self, text):
+                    return pv.run_proc(["unshare", "-n", "sh", "-c", 'ip link set lo up && ip addr add 10.77.1.1/24 dev lo && exec "$0"', self.exe], text, self.timeout, self.env)
+            lits = ["::1", "::", "2001:db8::1", "fe80::1", "::ffff:1.2.3.4", "ff02::1", "1:2:3:4:5:6:7:8", "::1.2.3.4", "127.0.0.1", "10.77.1.1", "1.2.3", "::g"]
+            nlines = ["new %s %d" % (hx(l.encode()), 80 + i) for i, l in enumerate(lits)]
+            try:
+                ncases = annotate(exe, [nlines])
+                f2, c2, t2 = diffrun.campaign(chk, NetnsFamily("sockaddr", exe, timeout=120, spec_view=spec_view), ncases, proof_ok, detail, signature_of,
+                                              "C17 (library in a network namespace with IPv4 10.77.1.1 and no IPv6 but ::1)", batch=1)
+                found, corr, thm = found or f2, corr or c2, thm or t2
+                chk.bump("text-creation in an IPv4-only network namespace", len(nlines))
+            except pv.BuildError:
+                pass
+        else:
+            chk.assumptions.append("network namespaces not available: text creation was not re-run on an IPv4-only host configuration")
     diffrun.conclude(chk, found, corr, thm, proof_ok and driver_ok, detail, "C17 socket address conversions")
     chk.cov["exhaustive_small_scope"] = {"native_lengths": "0..40 x 15 family heads x 5 fills; 41..100000 (12 lengths incl. 128 = sockaddr_storage) x 4 heads", "tonative_big_dest": "41..2^20 (10 lengths)", "tonative_destlen": "0..40 x 8 addresses",
                                          "ipv4_boundary_octets": n4}
